@@ -374,7 +374,7 @@ def generate(tier, seed):
     # (4) sessions: several tables derived from one source (replacements on the source, on intermediate tables and on
     #     siblings), and the source / intermediate tables written AFTER the derived ones were made
     for fmt in ('bed', 'bed6', 'np', 'vcf', 'vcf2', 'sam', 'fastq', 'fasta'):
-        for rep in range(3 if quick else 12):
+        for rep in range(4 if quick else 12):
             n = rng.choice([2, 3, 4])
             shape = {'samples': rng.choice([1, 2])} if fmt == 'vcf2' else {}
             f = _gen_file(fmt, rng, n, 'crlf' if (fmt in ('sam', 'bed6', 'vcf2', 'fastq') and rep % 3 == 2) else 'lf', **shape)
@@ -431,7 +431,17 @@ def _repl(rng, fmt, n, p, exclude=()):
 
 def _gen_session(rng, fmt, f, n, variant):
     c = dict(f)
-    v = variant % 3
+    v = variant % 4
+    if v == 3:      # a basic slice of the source (NumPy views of its offset arrays) is written, THEN the source is used again
+        spec = rng.choice([['slice', 1, None, None], ['slice', 1, None, 2], ['slice', None, None, -1], ['slice', -2, None, None]])
+        sel = _resolve(spec, n)
+        perm = list(range(n))
+        rng.shuffle(perm)
+        p2, _ = _repl(rng, fmt, n, ['src'])
+        c['progs'] = [['touch', ['idx', spec, sel, ['src']]], ['idx', ['list', perm], perm, ['src']], p2,
+                      ['idx', ['slice', None, None, None], list(range(n)), ['src']]]
+        c['writes'] = [0, 1, 2, 3]
+        return c
     if v == 0:      # t1 = replace(t, a); t2 = replace(t1, b); everything is written, the source last
         p1, j1 = _repl(rng, fmt, n, ['src'])
         p2, _ = _repl(rng, fmt, n, ['ref', 1], exclude=(j1,))
